@@ -205,6 +205,11 @@ func main() {
 			defer cancel()
 			cmd := exec.CommandContext(ctx, filepath.Join(build, j.part.Bin), args...)
 			cmd.Env = append(os.Environ(), "GOMAXPROCS=2")
+			// every shard works in a directory of its own below the scratch directory: a tree under test that writes
+			// relative to the working directory cannot touch /verif or /repo
+			wd := filepath.Join(scratch, fmt.Sprintf("wd-%s-%d", j.part.Name, j.shard))
+			os.MkdirAll(wd, 0o755)
+			cmd.Dir = wd
 			outb, err := cmd.CombinedOutput()
 			if ctx.Err() != nil {
 				err = fmt.Errorf("killed after %s (hard limit): %v", limit, err)
